@@ -8,7 +8,18 @@ package datastore
 // Representation invariant of a repo's counter: mutCurID < mutSavedID, and mutSavedID is the
 // value last persisted under the repo's mutation-id key (ghost `persisted`).
 
+// ---- lock discipline (C11): guarded fields are read only with their mutex held and written only
+// with it held in write mode; checked in every function flagged `lockset` ----
+
+//@ guarded repoManager.repos by repoMutex
+//@ guarded repoManager.repoToUUID, repoManager.versionToUUID, repoManager.uuidToVersion, repoManager.repoID, repoManager.versionID, repoManager.instanceID by idMutex
+//@ guarded repoManager.branchToUUID by branchMutex
+//@ guarded nodeT.children, nodeT.locked, nodeT.note, nodeT.log, nodeT.updated by RWMutex
+//@ guarded repoT.mutCurID, repoT.mutSavedID by mutMu
+
+
 //@ func repoT.newMutationID
+//@   lockset
 //@   prop C12
 //@   requires r != nil && r.mutCurID < r.mutSavedID && r.mutSavedID <= 0xFFFFFFFFFFFFFF00
 //@   requires manager != nil && manager.store != nil && !manager.readOnly
@@ -21,6 +32,7 @@ package datastore
 //@   ensures persisted == r.mutSavedID
 
 //@ func repoT.initMutationID
+//@   lockset
 //@   prop C12 C03
 //@   requires r != nil && store != nil && mutationIDStart <= 0xFFFFFFFFFFFF0000
 //@   modifies r.mutCurID, r.mutSavedID
@@ -49,7 +61,22 @@ package datastore
 // Ghost pRepo, pVer, pInst: the counters last persisted under the new-ids key.
 
 //@ func repoManager.putNewIDs
-//@   prop C12
+//@   lockset
+//@   prop C12 C11
+//@   requires m != nil && (m.readOnly || m.store != nil)
+//@   modifies ghost pRepo, ghost pVer, ghost pInst
+//@   ghost pRepo dvid.RepoID = arbitrary()
+//@   ghost pVer dvid.VersionID = arbitrary()
+//@   ghost pInst dvid.InstanceID = arbitrary()
+//@   ensures !m.readOnly && result == nil ==> pRepo == m.repoID && pVer == m.versionID && pInst == m.instanceID
+//@   ensures m.readOnly ==> result == nil && pRepo == old(pRepo) && pVer == old(pVer) && pInst == old(pInst)
+
+// putNewIDsLocked is the body of putNewIDs for callers that hold idMutex (newInstanceID persists
+// while it still holds the write lock).
+//@ func repoManager.putNewIDsLocked
+//@   lockset
+//@   holds m.idMutex R
+//@   prop C12 C11
 //@   requires m != nil && (m.readOnly || m.store != nil)
 //@   modifies ghost pRepo, ghost pVer, ghost pInst
 //@   ghost pRepo dvid.RepoID = arbitrary()
@@ -74,6 +101,7 @@ package datastore
 //@   ensures result != nil ==> m.repoID == old(m.repoID) && m.versionID == old(m.versionID) && m.instanceID == old(m.instanceID)
 
 //@ func repoManager.newInstanceID
+//@   lockset
 //@   prop C12 C06
 //@   requires m != nil && (m.readOnly || m.store != nil)
 //@   modifies m.instanceID, ghost pRepo, ghost pVer, ghost pInst
@@ -88,6 +116,7 @@ package datastore
 //@   ensures m.instanceIDGen == "sequential" && !m.readOnly && result1 == nil ==> pInst == m.instanceID
 
 //@ func repoManager.newRepoID
+//@   lockset
 //@   prop C12
 //@   requires m != nil && (m.readOnly || m.store != nil)
 //@   modifies m.repoID, ghost pRepo, ghost pVer, ghost pInst
@@ -98,6 +127,7 @@ package datastore
 //@   ensures !m.readOnly && result1 == nil ==> pRepo == m.repoID
 
 //@ func repoManager.newUUID
+//@   lockset
 //@   prop C12 C07
 //@   requires m != nil && (m.readOnly || m.store != nil) && m.versionToUUID != nil && m.uuidToVersion != nil
 //@   modifies m.versionID, m.versionToUUID[*], m.uuidToVersion[*], ghost pRepo, ghost pVer, ghost pInst
@@ -111,6 +141,7 @@ package datastore
 //@   ensures !m.readOnly && result2 == nil ==> pVer == m.versionID
 
 //@ func repoManager.newVersionID
+//@   lockset
 //@   prop C12 C07
 //@   requires m != nil && (m.readOnly || m.store != nil) && m.versionToUUID != nil && m.uuidToVersion != nil
 //@   modifies m.versionID, m.versionToUUID[*], m.uuidToVersion[*], ghost pRepo, ghost pVer, ghost pInst
@@ -169,6 +200,7 @@ package datastore
 // committed parent; branch names stay one chain; (C04) write order the start-up loader tolerates ----
 
 //@ func repoManager.newRepo
+//@   lockset
 //@   prop C07 C04
 //@   safety_off
 //@   calls_havoc
@@ -182,6 +214,8 @@ package datastore
 //@   ensures assign != nil && old(has(m.repos, *assign)) ==> (forall v dvid.VersionID :: has(m.versionToUUID, v) == old(has(m.versionToUUID, v))) && (forall u dvid.UUID :: has(m.uuidToVersion, u) == old(has(m.uuidToVersion, u)) && m.uuidToVersion[u] == old(m.uuidToVersion[u]))
 
 //@ func repoManager.newVersion
+//@   lockset
+//@   unguarded child
 //@   prop C07
 //@   safety_off
 //@   calls_havoc
@@ -194,6 +228,8 @@ package datastore
 //@   assert at "childUUID, childV, err := m.newUUID(assign)": branchname == node.branch ==> (forall j int :: {node.children[j]} 0 <= j && j < len(node.children) ==> r.dag.nodes[node.children[j]].branch != branchname)
 
 //@ func repoManager.merge
+//@   lockset
+//@   unguarded child
 //@   prop C07
 //@   safety_off
 //@   calls_havoc
@@ -206,6 +242,7 @@ package datastore
 // commit: a node already committed is refused; a successful commit has written the repo (with the
 // locked flag) to the metadata store (C03: the flag survives a restart).
 //@ func repoManager.commit
+//@   lockset
 //@   prop C07 C03
 //@   safety_off
 //@   calls_havoc
@@ -267,3 +304,190 @@ package datastore
 //@   safety_off
 //@   modifies *
 //@   assert at "if err = oldKV.RawRangeQuery(begKey, endKey, keysOnly, ch, nil); err != nil {": instPrefix(begKey, uint32(d1.InstanceID())) && instPrefix(endKey, uint32(d1.InstanceID()) + 1)
+
+// ---- lock discipline of the remaining request-time accessors of guarded metadata (C11) ----
+// (`inline`: callers under contract keep executing these bodies; the blocks exist for the lockset check)
+
+//@ func repoManager.getBranchVersion
+//@   prop C11
+//@   lockset
+//@   inline
+//@   safety_off
+//@   calls_havoc
+//@   modifies *
+
+//@ func repoManager.deleteRepo
+//@   prop C11
+//@   lockset
+//@   inline
+//@   safety_off
+//@   calls_havoc
+//@   modifies *
+
+//@ func repoManager.hideBranch
+//@   prop C11
+//@   lockset
+//@   inline
+//@   safety_off
+//@   calls_havoc
+//@   modifies *
+
+//@ func repoManager.addRepo
+//@   prop C11
+//@   lockset
+//@   inline
+//@   safety_off
+//@   calls_havoc
+//@   modifies *
+
+//@ func repoT.MarshalJSON
+//@   prop C11
+//@   lockset
+//@   inline
+//@   safety_off
+//@   calls_havoc
+//@   modifies *
+
+//@ func nodeT.MarshalJSON
+//@   prop C11
+//@   lockset
+//@   inline
+//@   safety_off
+//@   calls_havoc
+//@   modifies *
+
+//@ func nodeT.GobEncode
+//@   prop C11
+//@   lockset
+//@   inline
+//@   safety_off
+//@   calls_havoc
+//@   modifies *
+
+//@ func nodeT.duplicate
+//@   prop C11
+//@   lockset
+//@   unguarded dup
+//@   safety_off
+//@   calls_havoc
+//@   modifies *
+
+//@ func repoManager.setNodeNote
+//@   prop C11
+//@   lockset
+//@   inline
+//@   safety_off
+//@   calls_havoc
+//@   modifies *
+
+//@ func repoManager.putCaches
+//@   prop C11
+//@   lockset
+//@   inline
+//@   safety_off
+//@   calls_havoc
+//@   modifies *
+
+//@ func repoManager.MarshalJSON
+//@   prop C11
+//@   lockset
+//@   inline
+//@   safety_off
+//@   calls_havoc
+//@   modifies *
+
+//@ func repoT.getMutationID
+//@   prop C11
+//@   lockset
+//@   inline
+//@   safety_off
+//@   calls_havoc
+//@   modifies *
+
+//@ func nodeT.addToLog
+//@   prop C11
+//@   lockset
+//@   inline
+//@   safety_off
+//@   calls_havoc
+//@   modifies *
+
+//@ func repoManager.versionFromUUID
+//@   prop C11
+//@   lockset
+//@   inline
+//@   safety_off
+//@   calls_havoc
+//@   modifies *
+
+//@ func repoManager.uuidFromVersion
+//@   prop C11
+//@   lockset
+//@   inline
+//@   safety_off
+//@   calls_havoc
+//@   modifies *
+
+//@ func repoManager.types
+//@   prop C11
+//@   lockset
+//@   inline
+//@   safety_off
+//@   calls_havoc
+//@   modifies *
+
+//@ func repoManager.saveRepoByVersion
+//@   prop C11
+//@   lockset
+//@   inline
+//@   safety_off
+//@   calls_havoc
+//@   modifies *
+
+//@ func repoManager.repoFromVersion
+//@   prop C11
+//@   lockset
+//@   inline
+//@   safety_off
+//@   calls_havoc
+//@   modifies *
+
+//@ func repoManager.matchingUUID
+//@   prop C11
+//@   lockset
+//@   inline
+//@   safety_off
+//@   calls_havoc
+//@   modifies *
+
+//@ func repoManager.getRepoRootVersion
+//@   prop C11
+//@   lockset
+//@   inline
+//@   safety_off
+//@   calls_havoc
+//@   modifies *
+
+//@ func repoManager.getNodeNote
+//@   prop C11
+//@   lockset
+//@   inline
+//@   safety_off
+//@   calls_havoc
+//@   modifies *
+
+//@ func repoManager.addToNodeLog
+//@   prop C11
+//@   lockset
+//@   inline
+//@   safety_off
+//@   calls_havoc
+//@   modifies *
+
+//@ func repoManager.repoFromUUID
+//@   prop C11
+//@   lockset
+//@   inline
+//@   safety_off
+//@   calls_havoc
+//@   modifies *
